@@ -91,7 +91,22 @@ func listFiles(ctx context.Context, store Store, prefix string, max int) (out []
 	return
 }
 
+// VerifWriteFault (verif overlay) is asked before every object write with the path being written (the temporary file of
+// the local store, else the object name); when it answers true the write consumes its body and fails, as an upload that
+// breaks at commit time does. Nil in every build that does not set it.
+var VerifWriteFault func(path string) bool
+
 func (c *commonStore) compressedCopy(ctx context.Context, destination io.Writer, source io.Reader) error {
+	if hook := VerifWriteFault; hook != nil {
+		path := FileNameFromContext(ctx)
+		if f, ok := destination.(interface{ Name() string }); ok {
+			path = f.Name()
+		}
+		if hook(path) {
+			io.Copy(io.Discard, source)
+			return fmt.Errorf("verif: injected object-store failure while writing %s", path)
+		}
+	}
 	// Wrap the writer with the uncompressed write callback if it exists
 	if c.compressedWriteCallback != nil {
 		destination = &callbackWriter{w: destination, callback: c.compressedWriteCallback, ctx: ctx}
